@@ -1123,3 +1123,52 @@ def r_established_checked(ctx):
                               'readable/writable (select) the peer is reported connected while nothing is connected', instance=inst)
     ctx.require(n_sites >= 1, 'no CONNECTING -> CONNECTED transition found')
     ctx.expect_min(1)
+
+
+@rule('R-enumeration-siblings', 'the object\'s own replicated methods and those of every consumer are selected for id assignment by '
+                                'the same filter (same conjuncts, modulo the object they inspect)')
+def r_enumeration_siblings(ctx):
+    P, R = ctx.P, ctx.R
+    init = R.init
+
+    def selections(f):
+        out = []
+        for n in ast.walk(f.node):
+            if isinstance(n, (ast.ListComp, ast.SetComp, ast.GeneratorExp)) and len(n.generators) == 1:
+                g = n.generators[0]
+                it = g.iter
+                if isinstance(it, ast.Call) and isinstance(it.func, ast.Name) and it.func.id == 'dir' and len(it.args) == 1 and isinstance(g.target, ast.Name):
+                    obj = unparse(it.args[0])
+                    var = g.target.id
+                    conj = []
+                    for c in g.ifs:
+                        conj.extend(c.values if isinstance(c, ast.BoolOp) and isinstance(c.op, ast.And) else [c])
+
+                    class N(ast.NodeTransformer):
+                        def visit_Name(self, x):
+                            if x.id == var:
+                                return ast.copy_location(ast.Name(id='M', ctx=x.ctx), x)
+                            if x.id == obj:
+                                return ast.copy_location(ast.Name(id='OBJ', ctx=x.ctx), x)
+                            return x
+                    import copy
+                    norm = frozenset(unparse(N().visit(copy.deepcopy(c))) for c in conj)
+                    out.append((n, obj, norm))
+        return out
+    sel = selections(init)
+    inst = 'own and consumer methods are selected by the same filter'
+    ctx.tick()
+    if len(sel) < 2:
+        ctx.ok(inst, init.loc(), '%d selection(s) in the constructor: nothing to disagree' % len(sel), nontrivial=False)
+    else:
+        ref = sel[0]
+        bad = [x for x in sel[1:] if x[2] != ref[2]]
+        if bad:
+            n, obj, norm = bad[0]
+            ctx.violation('%s:method-selection-filters-differ' % init.qualname, init.loc(n),
+                          'the methods of `%s` are selected with %s, those of `%s` with %s: a name that is enumerated for one kind of object and skipped for the other (e.g. the '
+                          'unversioned alias) shifts every later method id when a new version is added' % (obj, sorted(norm - ref[2]) or sorted(norm), ref[1], sorted(ref[2] - norm) or sorted(ref[2])),
+                          instance=inst)
+        else:
+            ctx.ok(inst, init.loc(sel[0][0]), '%d selections, conjuncts %s' % (len(sel), sorted(ref[2])))
+    ctx.expect_min(1)
